@@ -69,7 +69,8 @@ MODE_CLASS = {"exc": "ValueError", "excBrokenStr": "BrokenStr", "excBrokenRepr":
               "x:chained": "ValueError", "x:ctxchained": "NameError", "x:importRaises": "ValueError", "x:importExit": "SystemExit",
               "x:importFnRaises": "KeyError", "x:fromImport": "KeyError", "x:importCustomInit": "TwoArgs", "x:importUse": "KeyError"}
 # modes whose failure is raised on the student's own line (location is checked only for these)
-STUDENT_LINE = {"exc", "excBrokenStr", "excBrokenRepr", "raiseSysExit", "sysexit", "x:keyBare", "x:key", "x:zero",
+STUDENT_LINE = {"syntax",      # (code that does not compile: the line the parser complains about)
+                "exc", "excBrokenStr", "excBrokenRepr", "raiseSysExit", "sysexit", "x:keyBare", "x:key", "x:zero",
                 "x:name", "x:type", "x:index", "x:attr", "x:assert", "x:bareexc", "x:args2", "x:custominit",
                 "x:oserror", "reraise", "nested", "x:noname", "x:lowername", "x:group", "x:unicode", "x:memory", "x:notimpl",
                 "x:warn", "x:stopasync", "x:argsnonstr", "x:tuplekey", "x:strExits", "x:noSetattr", "x:noGetattr", "x:slots", "x:argsProp", "x:keySub", "x:chained", "x:ctxchained", "x:syntaxBare"}
